@@ -210,7 +210,7 @@ C17_THEOREMS = [
     "Mat.banded_wf", "Mat.lower_upper_wf", "Mat.diagonal_wf", "Mat.fromVec_wf", "Mat.square_wf", "Mat.square_buffer_allocated",
     "Mat.constructors_readable", "Mat.band_index_inj", "Mat.full_index_inj", "Mat.set_panics", "Mat.set_spec",
     "Mat.addSub_dense", "Mat.add_dense", "Mat.sub_dense", "Mat.addSub_mismatch", "Mat.componentAddSub_dense",
-    "Mat.componentMul_dense", "Mat.isIdentity_of_identity", "Mat.isIdentity_iff_dense",
+    "Mat.componentMul_dense", "Mat.isIdentity_of_identity", "Mat.isIdentity_iff_dense", "Mat.fill_dense",
 ]
 
 
